@@ -1353,8 +1353,8 @@ def check_C06(ck):
         # the same (msg, dst) back-to-back with every expander and both modes (a cache keyed too coarsely shows here)
         m0, d0 = msgs[3], dsts[2]
         seq = []
-        for x in ("xmd256", "xmd512", "xof128", "xof256", "xmd256"):
-            for mode in ("ro", "nu"):
+        for mode in ("ro", "nu"):
+            for x in ("xmd256", "xmd512", "xof128", "xof256", "xmd256"):
                 seq.append((x, mode))
         us2 = [O.hash_to_field(x, m0, d0, 2 if mode == "ro" else 1, m_, L, Q) for (x, mode) in seq]
         want2, _, _ = _compose_map(ck, g, tag, us2, "h2c")
@@ -1549,6 +1549,34 @@ def check_C16(ck):
             ck.expect(a == b, "homomorphism(test)", "iso(P + K) = iso(P)", a, b, "adding a kernel point does not change the image")
         else:
             ck.notes.append("no rational kernel point constructed for %s" % tag)
+        # inputs with special OUTPUTS: roots of the numerators / denominators of the rational map
+        try:
+            gc = O.gen_constants()
+            pre = "ISO11_" if tag == "g1" else "ISO3_"
+            special = []
+            for (nm, what) in (("XNUM", "image-x=0"), ("YNUM", "image-y=0"), ("XDEN", "kernel"), ("YDEN", "kernel")):
+                for xr in O.poly_roots(K, gc[pre + nm], rng)[: (4 if not thorough else 12)]:
+                    Pt = CP.lift_x(xr)
+                    if Pt is not None:
+                        special.append((what, Pt))
+            sc = []
+            for (what, Pt) in special:
+                for (cl, lam) in rep_lams(g, rng)[:3]:
+                    sc.append((what, ("special-output/%s/%s" % (what, cl), "%s iso %s" % (tag, g.J(Pt, lam)))))
+                    sc.append((what, ("special-output/%s/neg/%s" % (what, cl), "%s iso %s" % (tag, g.J(CP.neg(Pt), lam)))))
+            for (what, c), (impl, _) in zip(sc, ck.run([c for (_, c) in sc])):
+                if what == "kernel":
+                    ck.expect(impl == "inf", "kernel->identity", c[1], impl, "inf", "poles of the rational map go to the identity")
+                else:
+                    try:
+                        I = g.pa(impl)
+                        ok = I is not None and C.on_curve(I) and (K.is_zero(I[0]) if what == "image-x=0" else K.is_zero(I[1]))
+                    except Exception:
+                        ok = False
+                    ck.expect(ok, "special-output:" + what, c[1], impl, "finite point of E with that coordinate zero", "a zero of a numerator is NOT the identity")
+            ck.classes["constructed:iso-special-outputs"] = len(special)
+        except Exception as e:
+            ck.notes.append("special-output construction failed: %r" % (e,))
         # homomorphism (tested, not proved): iso(P+Q) = iso(P)+iso(Q) with + on E' by the a != 0 law
         hc, exp = [], []
         idx = list(img.keys())
